@@ -17,7 +17,15 @@ ML_EXTRA = ("vmsg.ml",)
 COQ_TARGETS = ["Properties/C03.vo"]
 # names of the theorems in coq/Properties/C03.v to Print Assumptions on (edit here)
 THEOREMS = [
+    "C03_decode_total",
+    "C03_decode_name_hops",
+    "C03_decode_name_fuel_irrelevant",
+    "C03_decode_err_id",
     "C03_decode_short",
+    "C03_decode_sound",
+    "C03_decode_complete",
+    "C03_decode_exact",
+    "C03_decode_wf",
 ]
 RULE = ("cases: adversarial families first (short inputs, counts 0xFFFF, self/forward/header pointers, pointer chains "
         "up to the maximal stride-2 chain of 8181 pointers in a NULL RDATA, reserved label types 64..191, labels 63/64, "
